@@ -51,6 +51,11 @@ type Case struct {
 	// VerBase is added to every version number (elements and histories):
 	// versions beyond 16 bits are ordinary integers here.
 	VerBase int
+	// ViaChange: the history data source is not filled by hand but obtained
+	// from (*osm.Change).HistoryDatasource() of a change that carries the
+	// history versions spread over its create, modify and delete sections (only
+	// when no history is present-but-empty, which that constructor cannot express).
+	ViaChange bool
 }
 
 var errBackend = errors.New("c13: injected backend failure")
@@ -188,6 +193,41 @@ func check(c Case) error {
 				l = append(l, &osm.Relation{ID: osm.RelationID(h.ID), Version: v, Visible: i%2 == 0, Tags: osm.Tags{{Key: "slot", Value: fmt.Sprint(i)}}})
 			}
 			ds.Relations[osm.RelationID(h.ID)] = l
+		}
+	}
+	if c.ViaChange {
+		ok := true
+		for k, vs := range hist {
+			if present[k] && len(vs) == 0 {
+				ok = false
+			}
+		}
+		if ok {
+			hc := &osm.Change{Create: &osm.OSM{}, Modify: &osm.OSM{}, Delete: &osm.OSM{}}
+			sec := []*osm.OSM{hc.Create, hc.Modify, hc.Delete}
+			i := 0
+			for kind := 0; kind < 3; kind++ {
+				for id := int64(1); id <= 6; id++ {
+					switch kind {
+					case 0:
+						for _, n := range ds.Nodes[osm.NodeID(id)] {
+							sec[i%3].Nodes = append(sec[i%3].Nodes, n)
+							i++
+						}
+					case 1:
+						for _, w := range ds.Ways[osm.WayID(id)] {
+							sec[i%3].Ways = append(sec[i%3].Ways, w)
+							i++
+						}
+					case 2:
+						for _, r := range ds.Relations[osm.RelationID(id)] {
+							sec[i%3].Relations = append(sec[i%3].Relations, r)
+							i += 2 // relations of one id land in different sections than their neighbours
+						}
+					}
+				}
+			}
+			ds = hc.HistoryDatasource()
 		}
 	}
 	change := &osm.Change{}
@@ -400,6 +440,9 @@ func classify(c Case) (bool, []string) {
 	if c.OtherOpts != 0 {
 		cl = append(cl, "unrelated-options")
 	}
+	if c.ViaChange {
+		cl = append(cl, "datasource-from-change")
+	}
 	if c.FailAt > 0 && len(c.Modify)+len(c.Delete) > 0 {
 		cl = append(cl, "datasource-fault")
 	}
@@ -431,7 +474,7 @@ func genElems(t *rapid.T, label string) []Elem {
 func TestChange(t *testing.T) {
 	harness.Run(t, harness.Spec[Case]{
 		Name: "change", N: 20000,
-		Rule: "changes with 0..5 created, modified and deleted elements each (nodes, ways, relations over a small id space so ids collide; nil or empty blocks) x histories per element: missing entirely, present but empty, unsorted, with version gaps, with the element's own and later versions, duplicates; with/without IgnoreMissingChildren (a quarter passing the opposite value first: the later option decides), a quarter with all version numbers shifted to around 2^16, 2^17 or 2^20 so that histories straddle those boundaries; a third of the cases add options Change does not react to (IgnoreInconsistency, Threshold, ChildFilter); one case in eight injects a data source failure that is not a not-found error for one modified/deleted element (Change must return it; any other outcome is judged as usual); oracle = reference pairing (create->modify->delete, node->way->relation, old = greatest version below own taken from the history by pointer identity, visibility flags, typed error naming the first element without predecessor, create fallback when ignoring); non-trivial = a modified/deleted element whose history is unsorted or holds its own/later versions",
+		Rule: "changes with 0..5 created, modified and deleted elements each (nodes, ways, relations over a small id space so ids collide; nil or empty blocks) x histories per element (held in a hand-filled osm.HistoryDatasource or, one case in four, obtained from (*osm.Change).HistoryDatasource() of a change carrying the versions in its three sections): missing entirely, present but empty, unsorted, with version gaps, with the element's own and later versions, duplicates; with/without IgnoreMissingChildren (a quarter passing the opposite value first: the later option decides), a quarter with all version numbers shifted to around 2^16, 2^17 or 2^20 so that histories straddle those boundaries; a third of the cases add options Change does not react to (IgnoreInconsistency, Threshold, ChildFilter); one case in eight injects a data source failure that is not a not-found error for one modified/deleted element (Change must return it; any other outcome is judged as usual); oracle = reference pairing (create->modify->delete, node->way->relation, old = greatest version below own taken from the history by pointer identity, visibility flags, typed error naming the first element without predecessor, create fallback when ignoring); non-trivial = a modified/deleted element whose history is unsorted or holds its own/later versions",
 		Gen: func(t *rapid.T) Case {
 			c := Case{Create: genElems(t, "c"), Modify: genElems(t, "m"), Delete: genElems(t, "d"), Ignore: rapid.Bool().Draw(t, "ignore"),
 				NilCreate: rapid.Bool().Draw(t, "nc"), NilModify: rapid.Bool().Draw(t, "nm"), NilDelete: rapid.Bool().Draw(t, "nd")}
@@ -459,6 +502,7 @@ func TestChange(t *testing.T) {
 				c.FailAt = rapid.IntRange(1, 10).Draw(t, "failAt")
 			}
 			c.IgnoreFirst = rapid.IntRange(0, 3).Draw(t, "ignoreFirst") == 0
+			c.ViaChange = rapid.IntRange(0, 3).Draw(t, "viaChange") == 0
 			if rapid.IntRange(0, 3).Draw(t, "verBase?") == 0 {
 				c.VerBase = rapid.SampledFrom([]int{65530, 65535, 131070, 1 << 20}).Draw(t, "verBase")
 				for i := range c.Create {
